@@ -27,7 +27,7 @@ COMPONENTS = {"real": ["yowsup.config.manager.ConfigManager", "yowsup.config.v1 
                        "process restart = new ConfigManager on the surviving files"]}
 ASSUMPTIONS = ["six 1.17 shim on sys.path", "crash = process death: data handed to the kernel survives, user-space buffers "
                "do not (no power-loss model)", "key=value format compares scalar values as text (the format has no types)"]
-BUDGET = {"quick": (400, 120), "thorough": (6000, 900)}
+BUDGET = {"quick": (400, 120), "thorough": (40000, 2700)}
 FAULTS = ["crash_file_boundary"]
 PROBES = ["two_saves_same_profile", "fresh_profile", "keyval_path", "json_path", "noext_path", "crash_after_truncate", "crash_mid_write", "unicode_pushname"]
 SHRINK = []
